@@ -1,6 +1,6 @@
 """C10 helper: abstract track files (the records of specs/TrackModel/TrackModel.tla) <-> real track directories.
 
-  render(F, root, style)    writes track.json (+ included parts) for the abstract file F
+  render(F, root, style)    writes track.json (+ included parts, one or two levels deep) for the abstract file F
   load(root, F, sel, via)   runs the REAL loader (TrackFileReader.read or loader.load_track) and returns the outcome
                             {ok, kind, core, extra, err} with core/extra = projection of the returned Track object
   random_file(rnd)          seeded random abstract files over alphabets much wider than the TLC configurations
@@ -295,7 +295,7 @@ def render(F, root, style=None):
     rnd = random.Random(style["seed"])
     ser = _Ser(rnd, style["shuffle"])
     # keep the directories (removing them is slow on the scratch file system), remove stale files
-    for sub in ("", "operations", "challenges", "corpora"):
+    for sub in ("", "operations", "challenges", "corpora", "operations/more", "challenges/schedules", "corpora/docs"):
         dpath = os.path.join(root, sub)
         if os.path.isdir(dpath):
             for fn in os.listdir(dpath):
@@ -335,6 +335,10 @@ def render(F, root, style=None):
                         o["document-count"] = "10"
                 docs.append(o)
             co = {"name": k["name"], "documents": docs}
+            if "corpora" in F["parts"] and "docs" in F["parts"]:
+                # second-level part: the pattern is relative to the directory of corpora/default.json
+                files["corpora/docs/k%d.json" % (ki + 1)] = ser.items(docs)
+                co["documents"] = [_collect("docs/k%d.json" % (ki + 1), style)]
             if d["k"] == "corpusNoDocs" and d["c"] == ki + 1:
                 del co["documents"]
             cs.append(co)
@@ -356,7 +360,14 @@ def render(F, root, style=None):
                 elif d["k"] == "opNoType":
                     del o["operation-type"]
             os_.append(o)
-        if "ops" in F["parts"]:
+        if "ops" in F["parts"] and "opsN" in F["parts"]:
+            # second-level part below operations/: the first-level part keeps the first operation (if there are several)
+            # and pulls in the others with a pattern relative to ITS directory
+            keep = os_[:1] if len(os_) > 1 else []
+            files["operations/more/default.json"] = ser.items(os_[len(keep) :])
+            files["operations/default.json"] = ser.items(keep + [_collect("more/*.json", style)])
+            top["operations"] = [_collect("operations/*.json", style)]
+        elif "ops" in F["parts"]:
             if style["split_ops"] and len(os_) > 1:
                 files["operations/a.json"] = ser.items(os_[:1])
                 files["operations/b.json"] = ser.items(os_[1:])
@@ -373,6 +384,12 @@ def render(F, root, style=None):
             top["challenge"] = _chal_obj(F["chals"][0], d, 1, style, rnd)
         else:
             chs = [_chal_obj(ch, d, c + 1, style, rnd) for c, ch in enumerate(F["chals"])]
+            if "chals" in F["parts"] and "sched" in F["parts"]:
+                # second-level parts: every non-empty schedule lives in challenges/schedules/, included relative to challenges/
+                for c, o in enumerate(chs):
+                    if o.get("schedule"):
+                        files["challenges/schedules/c%d.json" % (c + 1)] = ser.items(o["schedule"])
+                        o["schedule"] = [_collect("schedules/c%d.json" % (c + 1), style)]
             if "chals" in F["parts"]:
                 files["challenges/default.json"] = ser.items(chs)
                 top["challenges"] = [_collect("challenges/*.json", style)]
@@ -739,9 +756,11 @@ def random_file(rnd, types):
                 F["supN"].append({"p": p, "v": rnd.choice([1, 2, 7, 300, 86400])})
     if rnd.random() < noisy:
         F["supN"].append({"p": rnd.choice(["unused_one", "now", "glob", "build_flavor", "serverless_operator"]), "v": 3})
-    for k, present in (("ops", F["ops"]), ("chals", F["form"] == "challenges"), ("corpora", F["corpora"])):
+    for k, present, nested in (("ops", F["ops"], "opsN"), ("chals", F["form"] == "challenges", "sched"), ("corpora", F["corpora"], "docs")):
         if present and rnd.random() < 0.3:
             F["parts"].append(k)
+            if rnd.random() < 0.5:
+                F["parts"].append(nested)  # a fragment of that part in a second-level part (nested include)
     F["tight"] = bool(F["parts"]) and rnd.random() < 0.25
     if rnd.random() < 0.1:
         F["refs"] = rnd.sample(["now", "build_flavor", "serverless_operator"], rnd.randint(1, 2))
